@@ -361,6 +361,7 @@ class WorkerModel:
         self.tasks = {}  # task idx -> strategy idx
         self.batches = {}  # strategy idx -> set(task idx)
         self.profiles = {}  # profile idx -> strategy idx
+        self.pending = set()  # resident profiles whose load has not been stepped to completion yet
 
     def clone(self, keep=True):
         m = WorkerModel(self.cap)
@@ -368,6 +369,7 @@ class WorkerModel:
             m.tasks = dict(self.tasks)
             m.batches = {k: set(v) for k, v in self.batches.items()}
             m.profiles = dict(self.profiles)
+            m.pending = set(self.pending)
         return m
 
 
@@ -384,12 +386,15 @@ def exec_worker(case):
     for demand, bsize, is_batch in specs_:
         base = ExecutionStrategy(resources=Resources({Resource(name=t, _id="any"): q for t, q in demand.items()}), batch_size=bsize, runtime=EventTime(3, US))
         strategies.append(BatchStrategy(base) if is_batch else base)
+    # loading strategies: the same demands, loading instantly (0 us, pending until the next step) or in 3 us (one 5 us step)
+    loaders = [ExecutionStrategy(resources=Resources({Resource(name=t, _id="any"): q for t, q in demand.items()}), batch_size=1,
+                                 runtime=EventTime(0 if i % 2 else 3, US)) for i, (demand, _b, _ib) in enumerate(specs_)]
     tasks = [mk_task(i) for i in range(6)]
     profiles = [WorkProfile(name=f"prof{i}") for i in range(2)]
     workers = [Worker(name="W", resources=Resources(resource_vector=vec))]
     models = [WorkerModel(cap)]
     cur = 0
-    flags = {"refusal_after_success": False, "batch_emptied": False, "mutation_after_copy": False, "batch_reused": False}
+    flags = {"refusal_after_success": False, "batch_emptied": False, "mutation_after_copy": False, "batch_reused": False, "pending_profile_evicted": False}
     successes = 0
     copied = False
     emptied = set()
@@ -435,13 +440,18 @@ def exec_worker(case):
             snap[t] = (c - o.get(t, 0), o.get(t, 0), c)
         snap["placed"] = sorted(m.tasks)
         snap["fits"] = [fits(m, si) or (specs_[si][2] and bool(m.batches.get(si))) for si in range(len(specs_))]
+        snap["avail_profiles"] = sorted(set(m.profiles) - m.pending)
+        snap["pending_profiles"] = sorted(m.pending)
         return snap
 
     def compare(k, what):
         got, exp = observe(workers[k]), expected(models[k])
-        for key in list(TYPES) + ["placed", "fits"]:
+        for key in list(TYPES) + ["placed", "fits", "avail_profiles", "pending_profiles"]:
             if got[key] != exp[key]:
                 tag = ""
+                if key.endswith("_profiles"):
+                    bad("getter_profiles" + (".on_copy" if k > 0 else ""), f"after {what} on object {k}: {key}: observed {got[key]} expected {exp[key]}")
+                    return False
                 if key == "fits":
                     diff = [i for i in range(len(specs_)) if got["fits"][i] != exp["fits"][i]]
                     if all(specs_[i][2] for i in diff):
@@ -525,7 +535,7 @@ def exec_worker(case):
                     continue
                 exp = "ok" if fits(m, si) else "ValueError"
                 try:
-                    w.load_profile(profiles[pi], strategies[si])
+                    w.load_profile(profiles[pi], loaders[si])
                     out = "ok"
                 except ValueError:
                     out = "ValueError"
@@ -534,6 +544,7 @@ def exec_worker(case):
                     break
                 if out == "ok":
                     m.profiles[pi] = si
+                    m.pending.add(pi)
                     successes += 1
                 elif observe(w) != before:
                     bad("refused_load_changed_state", f"load_profile raised but getters changed")
@@ -551,7 +562,11 @@ def exec_worker(case):
                     break
                 if out == "ok":
                     m.profiles.pop(pi)
+                    if pi in m.pending:
+                        flags["pending_profile_evicted"] = True
+                    m.pending.discard(pi)
             elif kind == "step":
+                m.pending.clear()
                 w.step(EventTime(0, US), EventTime(5, US))
                 got = observe(w)
                 if got["pending_profiles"] or got["avail_profiles"] != sorted(m.profiles):
